@@ -102,8 +102,27 @@ const CIDRS: &[&str] = &[
     "2001:db8::/32",
     "2001:db8:1::/48",
     "172.16.0.0/12",
+    "::ffff:10.0.0.0/104",
+    "::/0",
+    "0.0.0.0/0",
 ];
-const IPS: &[&str] = &["10.1.2.3", "10.1.9.9", "10.200.0.1", "192.168.1.1", "8.8.8.8", "2001:db8:1::5", "2001:db8:ffff::1", "::1", "172.20.1.1"];
+pub const IPS: &[&str] = &[
+    "10.1.2.3",
+    "10.1.9.9",
+    "10.200.0.1",
+    "192.168.1.1",
+    "8.8.8.8",
+    "2001:db8:1::5",
+    "2001:db8:ffff::1",
+    "::1",
+    "172.20.1.1",
+    // the same hosts in other address families / spellings: IPv4-mapped and IPv4-compatible IPv6
+    "::ffff:10.1.2.3",
+    "::ffff:8.8.8.8",
+    "0:0:0:0:0:ffff:a01:203",
+    "::10.1.2.3",
+    "2001:0db8:0001:0000:0000:0000:0000:0005",
+];
 const METHODS: &[&str] = &["GET", "POST", "PUT", "DELETE"];
 const HEADER_NAMES: &[&str] = &["X-A", "x-b", "Accept-Language"];
 const HEADER_VALUES: &[&str] = &["fr", "en-US", "abc", "x1", "Bearer tok", "fr-FR,fr"];
@@ -376,6 +395,26 @@ impl Swarm {
     }
 }
 
+pub const ID_POOL: &[&str] = &[
+    "1", "2", "7", "07", "+7", "10", "9", "1a", "a1", "00", "-1", "1e1", "a", "A", "b", "ab", "abc", "Z", "é", "rule-10", "rule-9", "Rule-9",
+    "5f1c2d3e-0000-4000-8000-000000000001", "5f1c2d3e-0000-4000-8000-000000000010", " ", "x y", "18446744073709551616", "0x10", "١",
+];
+
+/// `n` distinct ids: mostly r0, r1, ... mixed with entries of the diverse pool
+pub fn id_pool(rng: &mut Rng, n: usize) -> Vec<String> {
+    let mut v: Vec<String> = Vec::new();
+    let diverse = rng.chance(2, 3);
+    let mut k = 0;
+    while v.len() < n {
+        let cand = if diverse && rng.chance(1, 2) { rng.pick_str(ID_POOL) } else { format!("r{k}") };
+        k += 1;
+        if !v.contains(&cand) {
+            v.push(cand);
+        }
+    }
+    v
+}
+
 fn instantiate_path(rng: &mut Rng, t: &str) -> String {
     let mut p = t.to_string();
     if p.contains("@slug") {
@@ -473,7 +512,7 @@ fn probe_from_rule(rng: &mut Rng, rule: &Value) -> Probe {
             1 => p.host = Some(rng.pick_str(&["example.com", "EXAMPLE.com", "abc.example.com", "x.shop.example.com", "other.org", "www.site.com", ""])),
             2 => p.scheme = rng.pick(&[None, Some("http".to_string()), Some("https".to_string()), Some("".to_string())]).clone(),
             3 => p.method = rng.pick(&[None, Some("GET".to_string()), Some("POST".to_string()), Some("DELETE".to_string())]).clone(),
-            4 => p.ip = rng.pick(&[None, Some("10.1.2.3".to_string()), Some("8.8.8.8".to_string()), Some("2001:db8:1::5".to_string())]).clone(),
+            4 => p.ip = if rng.coin() { None } else { Some(rng.pick_str(IPS)) },
             5 => {
                 if !p.headers.is_empty() && rng.coin() {
                     let k = rng.below(p.headers.len());
@@ -548,11 +587,13 @@ fn gen_case(rng: &mut Rng, prop: &str, mode: &str, tier: Tier) -> W1Case {
             }
         }
     };
-    // pool: several versions may share an id (used by updates)
+    // pool: several versions may share an id (used by updates).  Ids come from a diverse pool: plain names, numeric
+    // strings with equal numeric value, mixed alphanumerics, case variants, uuids, non-ASCII (the tie-break is by id)
     let mut rules: Vec<Value> = Vec::new();
     let nids = (npool * 2 / 3).max(2);
+    let ids = id_pool(rng, nids);
     for k in 0..npool {
-        let id = format!("r{}", k % nids);
+        let id = ids[k % nids].clone();
         let mut r = rg.rule(rng, &id, &swarm);
         if mode == "actions" {
             // C11: several rules match the same request, with rank ties and distinct ranks, conflicting effects,
@@ -1070,6 +1111,7 @@ fn exec(case: &W1Case, ctx: &mut Ctx) {
                 let matched = cur.match_request(&q);
                 let got = ids_of(&matched);
                 let mut problems: Vec<(String, String)> = Vec::new();
+                let mut action_hash: Option<u64> = None;
                 if c01 {
                     let exp = expected(&rrules, &q, &config);
                     if got != exp {
@@ -1141,6 +1183,8 @@ fn exec(case: &W1Case, ctx: &mut Ctx) {
                 if c11 {
                     // the action depends only on the set of matched rules
                     let base = serde_json::to_string(&Action::from_routes_rule(matched.clone(), &q, None)).unwrap();
+                    // logged, so that the cross-process diff of C11 sees a dependence on internal hash order
+                    action_hash = Some(fnv1a(base.as_bytes()));
                     let mut perm = matched.clone();
                     let mut prng = Rng::new(fnv1a(format!("{step}/{pi}").as_bytes()), "w1-perm", 0);
                     let tries = if perm.len() <= 1 { 0 } else { 4 };
@@ -1163,10 +1207,13 @@ fn exec(case: &W1Case, ctx: &mut Ctx) {
                         }
                     }
                 }
-                (problems, got, q)
+                (problems, got, q, action_hash)
             });
-            let Some((problems, got, q)) = res else { return };
+            let Some((problems, got, q, action_hash)) = res else { return };
             ctx.evals += 1;
+            if let Some(h) = action_hash {
+                ctx.event(&format!(" action {h:016x}"));
+            }
             if !got.is_empty() {
                 ctx.probe("probes_matching_some_rule");
             }
